@@ -264,7 +264,8 @@ class G:
             rows.append(secs)
         return {'t': 'display', 'env': env, 'rows': rows, 'punct': rng.choice(['', '.', ',', ';']),
                 'label': self.names.word() if rng.random() < 0.3 else None,
-                'tail': rng.choice(['', '', ' \\nonumber', '\\,', ' \\notag'])}
+                'tail': rng.choice(['', '', ' \\nonumber', '\\,', ' \\notag']),
+                'final': rng.choice(['', '', '', ' \\\\', ' \\\\[1ex]', ' &'])}
 
     def c_env_unknown(self):
         return {'t': 'env', 'name': self.rng.choice(['center', 'quote', 'myenv', 'abstract']), 'known': False,
@@ -519,6 +520,7 @@ def r_display(n, r):
     r.emit(n['punct'] + n['tail'])
     if n['label']:
         r.emit('\\label{'); r.word(n['label'], 'hidden'); r.emit('}')
+    r.emit(n.get('final', ''))
     r.emit('\n' + cl)
 def r_env(n, r):
     r.emit('\\begin{' + n['name'] + '}' + (n.get('arg') or '') + '\n'); render(n['body'], r); r.emit('\n\\end{' + n['name'] + '}')
